@@ -1,15 +1,319 @@
 /-
-  Driver engine stub (Stream): replaced by the real engine; see notes/AGENT_BRIEF.md.
+  Driver engine for C06 (commands `rng.*`): run-twice digests, streams used per action, varied
+  seeds, provider construction / seed order / aliasing / isolation, rejections, read_seeds.
+  Expected values come from the definitions the theorems of Props/C06.lean are about
+  (`seedMulti`, `seedNamed`, `Provider.*`, `uses`, `usesRun`, `readSeedsVec`, `readSeedsText`).
 -/
 import PopsModel.Driver.Util
+import PopsModel.Model.StreamText
+import PopsModel.Model.StreamUses
 namespace Pops.Driver.StreamEng
 open Pops Pops.Driver
 
 structure State where
-  dummy : Unit := ()
+  cfg : Option UseCfg := none
 deriving Inhabited
 
-def handle (st : State) (_cmd : String) (_inp _obs : List String) : State × String :=
-  (st, "BADLINE")
+/-! ### parsing helpers -/
+
+/-- `a=b` tokens as an association list. -/
+def kvOf (toks : List String) : List (String × String) :=
+  toks.filterMap fun t =>
+    match t.splitOn "=" with
+    | [a, b] => some (a, b)
+    | _ => none
+
+def look (kv : List (String × String)) (k : String) : Option String := (kv.find? (·.1 == k)).map (·.2)
+def lookBool (kv : List (String × String)) (k : String) : Option Bool := (look kv k).map (· == "1")
+
+def kind? : String → Option KernelKind
+  | "radial" => some .radial | "uniform" => some .uniform | "neighbor" => some .detNeighbor
+  | "network" => some .network | _ => none
+
+def cfg? (toks : List String) : Option UseCfg := do
+  let kv := kvOf toks
+  let gen ← lookBool kv "gen"; let est ← lookBool kv "est"
+  let hosts ← (look kv "hosts").bind parseNat?
+  let soils ← lookBool kv "soils"; let anthro ← lookBool kv "anthro"; let dsto ← lookBool kv "dsto"
+  let nat ← (look kv "nat").bind kind?; let ant ← (look kv "ant").bind kind?
+  let inj ← lookBool kv "inj"
+  let lethal ← lookBool kv "lethal"; let survival ← lookBool kv "survival"
+  let overpop ← lookBool kv "overpop"; let movements ← lookBool kv "movements"
+  let wdist ← lookBool kv "wdist"
+  some { generateStochastic := gen, establishmentStochastic := est, hosts := hosts, soils := soils,
+         useAnthro := anthro, dispersalStochastic := dsto, naturalKernel := nat, anthroKernel := ant,
+         injectedKernel := if inj then some [.naturalDispersal] else none,
+         useLethal := lethal, useSurvival := survival, useOverpopulation := overpop,
+         useMovements := movements, weatherFromDistribution := wdist }
+
+def names? (s : String) : Option (List StreamName) :=
+  if s = "-" then some [] else (s.splitOn ",").mapM StreamName.ofKey?
+
+def showNames (l : List StreamName) : String :=
+  if l.isEmpty then "-" else ",".intercalate (l.map (·.key))
+
+/-- `k=v,k=v` (or `-`) as a seed map; later pairs shadow earlier ones. -/
+def pairs? (s : String) : Option SeedMap :=
+  if s = "-" then some [] else
+    (s.splitOn ",").foldlM (fun (m : SeedMap) t =>
+      match t.splitOn "=" with
+      | [k, v] => (parseNat? v).map fun x => m.insert k x
+      | _ => none) []
+
+def nats? (s : String) : Option (List Nat) :=
+  if s = "-" then some [] else (s.splitOn ",").mapM parseNat?
+
+/-- `seed:draw,draw,...;seed:...` -/
+def table? (s : String) : Option (List (Nat × Array Nat)) :=
+  if s = "-" then some [] else
+    (s.splitOn ";").mapM fun e =>
+      match e.splitOn ":" with
+      | [a, b] => do
+        let k ← parseNat? a
+        let vs ← nats? b
+        some (k, vs.toArray)
+      | _ => none
+
+/-- The engine "fresh engine seeded v, i draws taken", its draws read from the table the harness
+    produced with real engines; a seed or position outside the table gives a value no engine
+    returns. -/
+def tableEngine (t : List (Nat × Array Nat)) : Engine (Nat × Nat) where
+  seed v := (v, 0)
+  next g :=
+    let v := match t.find? (·.1 == g.1) with
+      | some e => e.2.getD g.2 (2 ^ 70 + g.2)
+      | none => 2 ^ 71 + g.1
+    (v, (g.1, g.2 + 1))
+
+inductive Ctor where
+  | seed (s : Nat) (multi : Bool)
+  | map (m : SeedMap)
+  | config (c : SeedCfg)
+
+def ctor? (s : String) : Option Ctor :=
+  match s.splitOn ":" with
+  | ["seed", a, b] => (parseNat? a).map fun x => .seed x (b == "1")
+  | ["map", m] => (pairs? m).map .map
+  | ["config", mu, rs, m] => do
+    let r ← parseInt? rs
+    let mm ← pairs? m
+    some (.config { randomSeed := r, multipleRandomSeeds := mu == "1", randomSeeds := mm })
+  | _ => none
+
+def Ctor.build {σ : Type} (E : Engine σ) : Ctor → Except ErrKind (Provider σ)
+  | .seed s m => .ok (Provider.ofSeed E s m)
+  | .map m => Provider.ofMap E m
+  | .config c => Provider.ofConfig E c
+
+def opt (pre : String) (toks : List String) : Option String :=
+  (toks.find? (·.startsWith pre)).map fun t => (t.drop pre.length).toString
+
+/-- Draw from the streams listed in `ops` (positions in the documented order), in sequence. -/
+def runOps {σ : Type} (E : Engine σ) (p : Provider σ) (ops : List Nat) : List Nat :=
+  (ops.foldl (fun (acc : List Nat × Provider σ) k =>
+    let r := acc.2.drawFrom E (StreamName.all.getD k .disperserGeneration)
+    (r.1 :: acc.1, r.2)) ([], p)).1.reverse
+
+def firstDiff (a b : List Nat) : Nat :=
+  ((a.zip b).takeWhile fun (x, y) => x == y).length
+
+/-- Provider construction followed by draws through the accessors. `label` is the property
+    predicate the command stands for (`none`: model comparison only). -/
+def providerLine (label : Option String) (inp obs : List String) : String :=
+  match inp with
+  | _engine :: c :: rest =>
+    match ctor? c, (opt "ops=" rest).bind nats?, (opt "table=" rest).bind table? with
+    | some ct, some ops, some t =>
+      let E := tableEngine t
+      match ct.build E, obs with
+      | .error e, [o] =>
+        if o = errTok e then "ok"
+        else if o = "ok" ∧ e = .invalid_argument then "PROPFAIL C06 missing_seed_accepted"
+        else s!"MISMATCH provider model={errTok e}"
+      | .error e, "ok" :: _ =>
+        if e = .invalid_argument then "PROPFAIL C06 missing_seed_accepted" else s!"MISMATCH provider model={errTok e}"
+      | .ok p, "ok" :: vals =>
+        match vals.mapM parseNat? with
+        | none => "BADLINE"
+        | some vs =>
+          let model := runOps E p ops
+          if vs = model then "ok"
+          else
+            let k := firstDiff vs model
+            let what := s!"draw={k} stream={(StreamName.all.getD (ops.getD k 0) .disperserGeneration).key} model={model.getD k 0}"
+            match label with
+            | some l => s!"PROPFAIL C06 {l} {what}"
+            | none => s!"MISMATCH provider {what}"
+      | .ok _, [o] => s!"MISMATCH provider model=ok observed={o}"
+      | _, _ => "BADLINE"
+    | _, _, _ => "BADLINE"
+  | _ => "BADLINE"
+
+def mapOfBits (bits : String) : SeedMap :=
+  ((StreamName.all.zip bits.toList).filter (·.2 == '1')).foldl (fun (m : SeedMap) (p : StreamName × Char) => m.insert p.1.key 1) []
+
+def sameMap (model : SeedMap) (obs : SeedMap) : Bool :=
+  obs.all (fun (k, v) => model.find? k == some v) && model.all (fun (k, _) => (obs.find? k).isSome)
+
+def hexVal (c : Char) : Nat :=
+  if c.isDigit then c.toNat - 48 else c.toNat - 87
+
+def unhex : List Char → List Char
+  | a :: b :: rest => Char.ofNat (hexVal a * 16 + hexVal b) :: unhex rest
+  | _ => []
+
+def exceptTok {α : Type} : Except ErrKind α → String
+  | .ok _ => "ok"
+  | .error e => errTok e
+
+/-! ### the engine -/
+
+def handle (st : State) (cmd : String) (inp obs : List String) : State × String :=
+  match cmd with
+  | "rng.setup" => (st, "ok")
+  | "rng.cfg" =>
+    match cfg? inp with
+    | some c => ({ st with cfg := some c }, "ok")
+    | none => (st, "BADLINE")
+  | "rng.twice" =>
+    -- determinism: every other run of the same configuration, seeds and inputs gives the digest
+    -- of the reference run (alone / after other runs / interleaved / simultaneous instances)
+    match inp with
+    | [_which, step, ref] =>
+      if obs.isEmpty then (st, "BADLINE")
+      else
+        match (obs.zipIdx).find? (fun (o, _) => o ≠ ref) with
+        | none => (st, "ok")
+        | some (o, i) => (st, s!"PROPFAIL C06 determinism step={step} run={i} digest={o} reference={ref}")
+    | _ => (st, "BADLINE")
+  | "rng.uses" =>
+    match inp, obs, st.cfg with
+    | [action, step, w], [moved], some c =>
+      match Proc.ofName? action, names? moved with
+      | some P, some ms =>
+        let allowed := uses P c
+        match ms.find? (fun n => !allowed.contains n) with
+        | some n => (st, s!"PROPFAIL C06 stream_isolation action={action} step={step} drew_from={n.key} allowed={showNames allowed}")
+        | none =>
+          if w = "w=1" then
+            match (mustUse P c).find? (fun n => !ms.contains n) with
+            | some n => (st, s!"MISMATCH uses action={action} step={step} expected_draw_from={n.key} moved={moved}")
+            | none => (st, "ok")
+          else (st, "ok")
+      | _, _ => (st, "BADLINE")
+    | _, _, _ => (st, "BADLINE")
+  | "rng.step" =>
+    match obs with
+    | ["ok"] => (st, "ok")
+    | [_, "single_generator"] => (st, "PROPFAIL C06 stream_isolation a process used the multi-stream provider as one generator")
+    | [_] => (st, "ok")     -- an exception unrelated to the provider ends the run (compared in `rng.twice`)
+    | _ => (st, "BADLINE")
+  | "rng.vary" =>
+    match inp, obs, st.cfg with
+    | [name, ref], [d], some c =>
+      match StreamName.ofKey? name with
+      | some n =>
+        if (usesRun c).contains n then (st, "ok")
+        else if d = ref then (st, "ok")
+        else (st, s!"PROPFAIL C06 disabled_seed_matters stream={name} used={showNames (usesRun c)}")
+      | none => (st, "BADLINE")
+    | _, _, _ => (st, "BADLINE")
+  | "rng.order" => (st, providerLine (some "seed_order") inp obs)
+  | "rng.alias" => (st, providerLine (some "single_alias") inp obs)
+  | "rng.iso" => (st, providerLine (some "multi_stream_draws") inp obs)
+  | "rng.named" => (st, providerLine (some "named_seed") inp obs)
+  | "rng.config" => (st, providerLine none inp obs)
+  | "rng.missing" =>
+    match inp, obs with
+    | [what, bits, extra], [o, key] =>
+      let m := if extra = "1" then (mapOfBits bits).insert "soils" 3 else mapOfBits bits
+      let E := tableEngine []
+      let model : Except ErrKind Unit :=
+        match what with
+        | "provider" => (Provider.ofMap E m).map fun _ => ()
+        | "validate_seeds" => validateSeeds m
+        | "validate_config" => validateConfig { randomSeed := 5, multipleRandomSeeds := true, randomSeeds := m }
+        | _ => (Provider.ofConfig E { randomSeed := 5, multipleRandomSeeds := true, randomSeeds := m }).map fun _ => ()
+      -- the property: a map that has some but not all of the ten keys is rejected
+      let partialMap := bits.toList.contains '0' && (!m.isEmpty || what == "provider" || what == "validate_seeds")
+      if partialMap && o ≠ "err:invalid_argument" then (st, s!"PROPFAIL C06 missing_seed_accepted keys={bits} observed={o}")
+      else if o ≠ exceptTok model then (st, s!"MISMATCH missing model={exceptTok model}")
+      else if key ≠ "-" ∧ (firstMissing m).map (·.key) ≠ some key then
+        (st, s!"MISMATCH missing_key model={((firstMissing m).map (·.key)).getD "-"}")
+      else (st, "ok")
+    | _, _ => (st, "BADLINE")
+  | "rng.call" =>
+    match inp with
+    | [c, op, tab] =>
+      match ctor? c, table? ((tab.drop 6).toString) with
+      | some ct, some t =>
+        let E := tableEngine t
+        match ct.build E with
+        | .error _ => (st, "BADLINE")
+        | .ok p =>
+          let model : Except ErrKind Nat :=
+            match op.splitOn ":" with
+            | ["discard", n] =>
+              match p.discard E (n.toNat?.getD 0) with
+              | .error e => .error e
+              | .ok p' => (p'.call E).map (·.1)
+            | _ => (p.call E).map (·.1)
+          if p.isMulti && obs ≠ ["err:runtime_error"] then
+            (st, s!"PROPFAIL C06 single_use_accepted observed={" ".intercalate obs}")
+          else
+            match model, obs with
+            | .error e, [o] => (st, if o = errTok e then "ok" else s!"MISMATCH call model={errTok e}")
+            | .ok v, ["ok", o] => (st, if o = toString v then "ok" else s!"MISMATCH call model={v}")
+            | _, _ => (st, "MISMATCH call")
+      | _, _ => (st, "BADLINE")
+    | _ => (st, "BADLINE")
+  | "rng.single" =>
+    match inp with
+    | ["map", _n] =>
+      let model := singleSeedMap (tableEngine []) []
+      (st, if obs = [exceptTok model] then "ok" else s!"MISMATCH single model={exceptTok model}")
+    | [c, tab] =>
+      match c.splitOn ":", table? ((tab.drop 6).toString) with
+      | ["config", mu, rs, n], some t =>
+        let E := tableEngine t
+        let cfg : SeedCfg := { randomSeed := rs.toInt?.getD 0, multipleRandomSeeds := mu == "1",
+                               randomSeeds := List.replicate (n.toNat?.getD 0) ("k", 1) }
+        match singleSeedConfig E cfg, obs with
+        | .error e, [o] => (st, if o = errTok e then "ok" else s!"MISMATCH single model={errTok e}")
+        | .ok g, ["ok", o] => (st, if o = toString (E.next g).1 then "ok" else s!"MISMATCH single model={(E.next g).1}")
+        | m, _ => (st, s!"MISMATCH single model={exceptTok m}")
+      | _, _ => (st, "BADLINE")
+    | _ => (st, "BADLINE")
+  | "rng.vec" =>
+    match inp, obs with
+    | [vs, pre], [o, mu, m] =>
+      match nats? vs, pairs? pre, pairs? m with
+      | some seeds, some pre, some om =>
+        let c0 : SeedCfg := { randomSeeds := pre }
+        if seeds.length < 10 ∧ o = "ok" then (st, s!"PROPFAIL C06 missing_seed_accepted read_seeds accepted {seeds.length} seeds")
+        else
+          match readSeedsVec c0 seeds with
+          | .error e =>
+            (st, if o = errTok e ∧ mu = "0" ∧ sameMap pre om then "ok" else s!"MISMATCH vec model={errTok e}")
+          | .ok c1 =>
+            (st, if o = "ok" ∧ mu = "1" ∧ sameMap c1.randomSeeds om then "ok" else "MISMATCH vec model=ok")
+      | _, _, _ => (st, "BADLINE")
+    | _, _ => (st, "BADLINE")
+  | "rng.text" =>
+    match inp, obs with
+    | [sep, kv, hex, pre], [o, mu, m] =>
+      match sep.toNat?, kv.toNat?, pairs? pre, pairs? m with
+      | some sp, some k, some pre, some om =>
+        let text := if hex = "-" then [] else unhex hex.toList
+        let c0 : SeedCfg := { randomSeeds := pre }
+        match readSeedsText c0 (Char.ofNat sp) (Char.ofNat k) text with
+        | .error e =>
+          (st, if o = errTok e ∧ mu = "0" ∧ sameMap pre om then "ok" else s!"MISMATCH text model={errTok e}")
+        | .ok c1 =>
+          (st, if o = "ok" ∧ mu = "1" ∧ sameMap c1.randomSeeds om then "ok"
+               else s!"MISMATCH text model=ok {c1.randomSeeds.length} entries")
+      | _, _, _, _ => (st, "BADLINE")
+    | _, _ => (st, "BADLINE")
+  | _ => (st, "BADLINE")
 
 end Pops.Driver.StreamEng
